@@ -307,6 +307,9 @@ class ProjGen:
         self.exported: List[Tuple[str, str, int]] = []  # (module, class name, cid) module-level classes of finished modules
         self.scopes: List[Scope] = []
         self.exc_names = all_builtin_exceptions()
+        self.exc_cids: Set[int] = set()
+        self.import_forms: List[str] = []
+        self.redefined = 0
 
     def fresh(self, p: str) -> str:
         self.n += 1
@@ -422,22 +425,34 @@ class ProjGen:
             out.append(("str", gen_doc(rng, "    " * indent_depth)))
 
     def gen_class(self, sc: Scope, seen: Dict[str, str], out: list, indent_depth: int, depth: int, modq: str,
-                  local_classes: List[Tuple[str, int]], in_block: bool) -> None:
+                  local_classes: List[Tuple[str, int]], in_block: bool, force_name: Optional[str] = None,
+                  force_bases: Optional[list] = None, simple: bool = False) -> None:
         rng = self.rng
-        name = self.fresh("K")
+        name = force_name or self.fresh("K")
         self.cid += 1
         cid = self.cid
         bases: list = []
         r = rng.random()
-        if r < 0.35:
+        if force_bases is not None:
+            bases = list(force_bases)
+        elif r < 0.35:
             pool = EXC_COMMON * 3 + self.exc_names + NON_EXC * 4
             bases.append(("e", rng.choice(pool)))
         elif r < 0.7 and local_classes:
-            for nm, c in rng.sample(local_classes, min(len(local_classes), rng.choice([1, 1, 1, 2]))):
+            # hierarchies across modules: prefer exception classes of the project (chains, mixins, diamonds)
+            excs = [x for x in local_classes if x[1] in self.exc_cids]
+            k = rng.choice([1, 1, 1, 2, 2])
+            pool2 = excs if excs and rng.random() < 0.6 else local_classes
+            picked = rng.sample(pool2, min(len(pool2), k))
+            if len(picked) < k:
+                picked += [x for x in rng.sample(local_classes, min(len(local_classes), k)) if x not in picked][:k - len(picked)]
+            for nm, c in picked:
                 bases.append(("u", c, nm))
             if rng.random() < 0.15:
                 bases.append(("e", rng.choice(EXC_COMMON)))
         self.env[cid] = [b[:2] for b in bases]
+        if any((b[0] == "e" and b[1] in self.exc_names) or (b[0] == "u" and b[1] in self.exc_cids) for b in bases):
+            self.exc_cids.add(cid)
         decos = [rng.choice([("o", "deco"), ("o", "dfac"), "un"])] if rng.random() < 0.1 else []
         doc = gen_doc(rng, "    " * (indent_depth + 1)) if rng.random() < 0.6 else None
         inherited: Dict[str, str] = {}
@@ -447,7 +462,10 @@ class ProjGen:
         body: list = []
         csc = Scope(sc.qname + "." + name, True, in_block, body, cid)
         cseen: Dict[str, str] = {}
-        self.gen_body(csc, cseen, body, indent_depth + 1, depth + 1, modq, local_classes, in_block, inherited)
+        if simple:
+            body.append(("oth",))
+        else:
+            self.gen_body(csc, cseen, body, indent_depth + 1, depth + 1, modq, local_classes, in_block, inherited)
         if doc is None and body and body[0][0] == "str":
             doc = body.pop(0)[1]          # a leading string statement IS the class docstring
         self.members[cid] = dict(cseen)
@@ -456,6 +474,25 @@ class ProjGen:
         seen[name] = "nonattr"
         if depth == 0 and sc.in_class is False:
             local_classes.append((name, cid))
+
+    def gen_redefined(self, sc: Scope, seen: Dict[str, str], out: list, modq: str, local_classes) -> None:
+        """`class B(Exc)`, `class D(B)`, `class B(Exc2)` again: the base is defined a second time after it has been
+        subclassed (pydoctor then registers the first `B` after `D`).  `B` is bound twice: out of the theorem's subset."""
+        rng = self.rng
+        self.gen_class(sc, seen, out, 0, 0, modq, local_classes, False, force_bases=[("e", rng.choice(EXC_COMMON))], simple=True)
+        name, cid1 = out[-1][1], out[-1][6]
+        first_scope = self.scopes.pop()                 # the namespace of the superseded class exists for pydoctor only
+        assert first_scope.cid == cid1
+        for _ in range(rng.randint(1, 2)):
+            self.gen_class(sc, seen, out, 0, 0, modq, local_classes, False,
+                           force_bases=[("u", cid1, name)] + ([("e", "object")] if False else []))
+            if rng.random() < 0.4:
+                out.append(("oth",))
+        local_classes[:] = [x for x in local_classes if x != (name, cid1)]
+        self.gen_class(sc, seen, out, 0, 0, modq, local_classes, False, force_name=name,
+                       force_bases=[("e", rng.choice(EXC_COMMON + NON_EXC))])
+        sc.label(name, "rebound")
+        self.redefined += 1
 
     def all_members(self, cid: int) -> Dict[str, str]:
         res: Dict[str, str] = {}
@@ -476,7 +513,10 @@ class ProjGen:
             elif k == "asg":
                 self.gen_assign(sc, seen, out, indent_depth, inherited)
             elif k == "class" and depth < 2:
-                self.gen_class(sc, seen, out, indent_depth, depth, modq, local_classes, in_block)
+                if depth == 0 and indent_depth == 0 and not sc.in_class and sc.qname != "<main>" and self.chance(0.12):
+                    self.gen_redefined(sc, seen, out, modq, local_classes)
+                else:
+                    self.gen_class(sc, seen, out, indent_depth, depth, modq, local_classes, in_block)
             elif k == "blk" and indent_depth < 4:
                 kind = rng.choice(["i", "t", "w", "f"])
                 body: list = []
@@ -522,12 +562,19 @@ class ProjGen:
     # ---- modules
     def project(self) -> Tuple[Dict[str, str], List[str]]:
         rng = self.rng
-        mods = [("pk", True), ("pk.ma", False)]
-        if rng.random() < 0.7:
-            mods.append(("pk.mb", False))
+        # generation order = dependency order (a module only imports from earlier ones); the NAMES are drawn at random so
+        # that the importing module sorts before as well as after the module it imports from (pydoctor analyses siblings
+        # in alphabetical order unless a `from` import pulls a module forward; a plain `import pk.mod` does not)
+        names = rng.sample(["ma", "mb", "mq", "mz", "ab", "zz", "k"], 3)
+        mods = [("pk", True), ("pk." + names[0], False)]
+        if rng.random() < 0.75:
+            mods.append(("pk." + names[1], False))
         if rng.random() < 0.4:
-            mods.append(("pk.sub", True))
-            mods.append(("pk.sub.mc", False))
+            mods.append(("pk." + names[2], False))
+        if rng.random() < 0.4:
+            sub = rng.choice(["sub", "aa", "zsub"])
+            mods.append(("pk." + sub, True))
+            mods.append(("pk.%s.%s" % (sub, rng.choice(["mc", "a", "zc"])), False))
         files: Dict[str, str] = {"pk/_h.py": HELPER}
         self.modules = []
         for q, ispkg in mods:
@@ -536,9 +583,20 @@ class ProjGen:
             local_classes: List[Tuple[str, int]] = []
             imports = []
             if self.exported and rng.random() < 0.7:
-                for m, nm, cid in rng.sample(self.exported, min(len(self.exported), rng.randint(1, 2))):
-                    imports.append("from %s import %s" % (m, nm))
-                    local_classes.append((nm, cid))
+                for m, nm, cid in rng.sample(self.exported, min(len(self.exported), rng.randint(1, 3))):
+                    form = rng.choice(["from", "from", "plain", "plain", "plain_as"]) if m != "pk" else "from"
+                    if form == "from":
+                        imports.append("from %s import %s" % (m, nm))
+                        local_classes.append((nm, cid))
+                    elif form == "plain":             # base written `pk.mod.K`
+                        if "import " + m not in imports:
+                            imports.append("import " + m)
+                        local_classes.append((m + "." + nm, cid))
+                    else:                             # base written `alias.K`
+                        al = self.fresh("al")
+                        imports.append("import %s as %s" % (m, al))
+                        local_classes.append((al + "." + nm, cid))
+                    self.import_forms.append(form + (":base-module-sorts-later" if m.rsplit(".", 1)[-1] > q.rsplit(".", 1)[-1] and m.count(".") == q.count(".") else ""))
             seen: Dict[str, str] = {}
             self.gen_body(sc, seen, stmts, 0, 0, q, local_classes, False, {}, rng.randint(2, 6))
             self.scopes.append(sc)
@@ -547,7 +605,7 @@ class ProjGen:
             lines += self.emit(stmts, 0)
             rel = q.replace(".", "/") + ("/__init__.py" if ispkg else ".py")
             files[rel] = "\n".join(lines) + "\n"
-            imported_names = {x.split(" import ")[1] for x in imports}
+            imported_names = {x.split(" import ")[1] for x in imports if x.startswith("from ")}
             sc.imported = imported_names
             for s in stmts:
                 self.collect_exports(q, s)
@@ -556,6 +614,7 @@ class ProjGen:
 
     def collect_exports(self, q: str, s) -> None:
         if s[0] == "class":
+            self.exported = [e for e in self.exported if (e[0], e[1]) != (q, s[1])]      # a redefinition supersedes
             self.exported.append((q, s[1], s[6]))
         elif s[0] == "blk" or (s[0] == "cmp" and guard_taken(s[1])):
             for x in s[2]:
@@ -741,7 +800,17 @@ def build_pydoctor(files: Dict[str, str], modules: List[Tuple[str, bool]]):
     from pydoctor import model
     s = model.System()
     b = s.systemBuilder(s)
-    order = [("pk", True)] + [("pk._h", False)] + [m for m in modules if m[0] != "pk"]
+    allm = dict(modules)
+    allm["pk._h"] = False
+
+    def below(pkg: str) -> list:
+        res = []
+        for q in sorted(x for x in allm if x.rsplit(".", 1)[0] == pkg and x != pkg and x.count(".") == pkg.count(".") + 1):
+            res.append((q, allm[q]))
+            if allm[q]:
+                res += below(q)
+        return res
+    order = [("pk", True)] + below("pk")
     for q, ispkg in order:
         rel = q.replace(".", "/") + ("/__init__.py" if ispkg else ".py")
         parent = q.rsplit(".", 1)[0] if "." in q else None
@@ -875,7 +944,8 @@ def oracle_scope(ctx: Ctx, sc: Scope, pd: Dict[str, Dict[str, Any]], py: Dict[st
         pk = PD2KC.get(p["kind"], "variable") if p["cls"] != "Attribute" or p["kind"] == "PROPERTY" else "variable"
         if pk != d["kind"]:
             if d["kind"] == "exception" and pk == "class":
-                report("kind:exception-not-in-table", n, "%r is documented as a class; Python says it is an exception class" % n)
+                report("kind:exception-documented-as-class", n, "%r is documented as a class; Python says it is an exception class "
+                       "(issubclass(cls, BaseException) through its bases)" % n)
             else:
                 report("kind:%s-vs-%s" % (pk, d["kind"]), n, "%r documented as %s, Python binds a %s" % (n, pk, d["kind"]))
             continue
@@ -1094,6 +1164,9 @@ def run_batch(ctx: Ctx, batch, pyres) -> None:
                 ex.append(py["error"][:200])
             continue
         ctx.count("projects")
+        for f in g.import_forms:
+            ctx.count("import:" + f)
+        ctx.count("construct:base-redefined-after-subclass", g.redefined)
         try:
             system = build_pydoctor(files, g.modules)
         except AssertionError as e:
